@@ -16,8 +16,11 @@ RowSum(r) == LET RECURSIVE S(_) S(i) == IF i > Len(r) THEN 0 ELSE r[i] + S(i + 1
 Rows(c) == {r \in [1 .. c -> 0 .. D] : RowSum(r) = D}
 
 Init == C \in Cs /\ W = <<>>
+\* To keep the deepest level affordable, the 4th row of a 3-column matrix is
+\* drawn from the rows whose blank weight is 1/4 or 2/4 (7 of the 15 rows).
+RowsAt(c, t) == IF c = 3 /\ t = 4 THEN {r \in Rows(c) : r[1] \in {1, 2}} ELSE Rows(c)
 Next == /\ Len(W) < MaxTOf[C] /\ C' = C
-        /\ \E r \in Rows(C) : W' = Append(W, r)
+        /\ \E r \in RowsAt(C, Len(W) + 1) : W' = Append(W, r)
 
 T == Len(W)
 \* every alignment collapses to exactly one label sequence: total mass D^T
